@@ -402,7 +402,7 @@ def run(ctx):
                     "pkg/scan/verif_export.go, command/verif_export_c01.go (build tag verif)"]
     ctx.assumptions += ["the target argument reaches the generators only through ip.ParseIPNet (parseDstSubnet, arp RunE)"]
     from checks import tgtlib
-    gen_ok, model_ok, proof_ok = tgtlib.gen_and_prove(ctx, "Spec/C02.vo", "Properties/C02.v", more=["Properties/C02Redirect.v"])
+    gen_ok, model_ok, proof_ok = tgtlib.gen_and_prove(ctx, "Spec/C02.vo", "Properties/C02.v", more=["Properties/C02Redirect.v", "Properties/C02Wire.v"])
     # say which statements of parseExcludeFile differ from the shape the model was written against
     try:
         import difflib
@@ -621,7 +621,10 @@ MANIFEST = {
     "level_text": "Theorems C02_accept_is_ipv4 / C02_non_ipv4_refused / C02_no_crash_no_foreign / C02_excluded_never_probed / "
                   "C02_exclusion_exact hold for all library results, nets, draws and exclusion lists; the executable model is "
                   "compared with the real ParseIPNet on thousands of target strings, with the real ipGenerator (exact "
-                  "sequences from seeded math/rand) and with parseExcludeFile + cidranger + the filter stage on whole subnets.",
+                  "sequences from seeded math/rand) and with parseExcludeFile + cidranger + the filter stage on whole subnets. "
+                  "C02_wire_confined / C02_scan_confined / C02_wire_never_foreign (Properties/C02Wire.v) carry confinement "
+                  "through the engines: for every command, every worker count and EVERY schedule of every engine run, each frame "
+                  "handed to the wire / target handed to Scan lies inside the net and outside the exclusion list.",
     "level_note": "Trusted: Coq kernel + VM, Go's net/netip parsers (oracle inputs, shape checked per case), cidranger "
                   "(modelled as set membership, compared exhaustively per subnet), harness comparison. No axioms.",
     "design_ref": "DESIGN.md section 5 (C02)",
